@@ -103,7 +103,7 @@ def solve(A: LinearOperator, B: torch.Tensor, E: Union[torch.Tensor, None] = Non
             is_hermit = A.is_hermitian and (M is None or M.is_hermitian)
             method = "cg" if is_hermit else "bicgstab"
 
-    if method == "exactsolve":
+    if isinstance(method, str) and method.lower() == "exactsolve":
         return exactsolve(A, B, E, M)
     else:
         # get the unique parameters of A
